@@ -5,7 +5,7 @@ from jsongen import *
 META = {
     "technique": "Lean 4 model of getModeSpecificProps, getObjectSpecificProps, initialObjectProps, device::setup and the per-call kernel/memory/streamProperties(extra) as compositions of the JSON merge/read/remove model; layering, non-interference of other modes and absence of 'modes' members proved from the merge laws; differential run against real Serial/OpenMP devices with occa::settings() set and restored, with a std::map re-computation of the layering and a scramble-the-other-modes metamorphic oracle",
     "category": "proof",
-    "level_text": "Proof for all property trees, settings, mode and object names (plain names): per member, the properties an object uses are the right-biased recursive merge of settings[obj], settings[obj/modes/M], settings[modes/M/obj], user[obj], user[obj/modes/M], user[modes/M/obj] (C26_object_layering, C26_mode_layering, C26_percall_layering), no 'modes' member survives (C26_no_modes_key), and anything written under modes/M' or obj/modes/M' for M' != M leaves the result unchanged (C26_other_modes_inert_*); tied to the code by a seeded differential run on real devices.",
+    "level_text": "Proof for all property trees, settings, mode and object names (plain names): per member, the properties an object uses are the right-biased recursive merge of settings[obj], settings[obj/modes/M], settings[modes/M/obj], user[obj], user[obj/modes/M], user[modes/M/obj] (C26_object_layering, C26_mode_layering, C26_percall_layering), no 'modes' member survives (C26_no_modes_key), and anything written under modes/M' or obj/modes/M' for M' != M leaves the result unchanged, up to device.properties() itself (C26_other_modes_inert_mode/_top/_object/_device); tied to the code by a seeded differential run on real devices.",
     "level_note": "Trusted: Lean kernel; the hand-written model lean/OccaModel/Props.lean over JsonPath.lean (validated by the correspondence run); harness/h_props.cpp; only Serial and OpenMP are enabled in the build under test, unknown mode names fall back to Serial. Mode names are matched by exact spelling at setup (the spelling given in 'mode') and by the registered spelling per call; the theorems are about one spelling M.",
     "design_ref": "DESIGN.md section 4, C26",
 }
